@@ -1664,7 +1664,23 @@ class CallsMixin:
         return ARR(x.dims, 'f')
 
     def n_divmod(self, pos, kw, node, env):
-        return TUPLE([INT(), INT()])
+        a = pos[0] if pos else TOP()
+        b = pos[1] if len(pos) > 1 else TOP()
+        if a.k in ('int', 'bool') and b.k in ('int', 'bool'):
+            q = INT()
+            r = INT()
+            r.nonneg = True
+            return TUPLE([q, r])
+        if a.k == 'arr' or b.k == 'arr':
+            da = a.dims if a.k == 'arr' else ()
+            db = b.dims if b.k == 'arr' else ()
+            dims = self.broadcast(da, db, None) \
+                if da is not None and db is not None else None
+            dt = 'i' if (a.dt if a.k == 'arr' else 'i') == 'i' and \
+                (b.dt if b.k == 'arr' else 'i') == 'i' and \
+                a.k != 'float' and b.k != 'float' else 'f'
+            return TUPLE([ARR(dims, dt), ARR(dims, dt)])
+        return TUPLE([TOP(), TOP()])
 
     def n_meshgrid(self, pos, kw, node, env):
         arrs = [self.as_arr(p) for p in pos if p.k != 'starred']
